@@ -567,6 +567,7 @@ impl syn::parse::Parse for ContainerAttributesInfo {
                     let validate_func = parse_function_returning_error(input)?;
                     // #[deserr( ... validate = some::func<T> )]
                     this.validate = Some(validate_func);
+                    this.validate_span = Some(attr_name.span());
                 }
                 "generic_param" => {
                     let _eq = input.parse::<Token![=]>()?;
